@@ -107,11 +107,27 @@ Definition run_self (bs : bytes) : string :=
 (* argument parsing for the transaction ops *)
 Definition opt_N (a : string) : option (option N) :=
   if String.eqb a "-" then Some None else match N_of_dec a with Some n => Some (Some n) | None => None end.
+(* `z<hex>`: a script assembled in memory from lone opcode bits, one per byte (Script::from_script_bits) *)
+Fixpoint lone_ops (bs : bytes) : option (list bit) :=
+  match bs with
+  | [] => Some []
+  | b :: r =>
+      let c := b2n b in
+      if is_opcode c then
+        if (c =? 76)%N then None else if (c =? 77)%N then None else if (c =? 78)%N then None
+        else match lone_ops r with Some l => Some (BOp c :: l) | None => None end
+      else None
+  end.
 Definition opt_script (a : string) : option (option (list bit)) :=
   if String.eqb a "-" then Some None
-  else match expand a with
-       | Some bs => match from_bytes bs with Ok s => Some (Some s) | _ => None end
-       | None => None
+  else match a with
+       | String "z" h => match bytes_of_hex h with
+                         | Some bs => match lone_ops bs with Some l => Some (Some l) | None => None end
+                         | None => None end
+       | _ => match expand a with
+              | Some bs => match from_bytes bs with Ok s => Some (Some s) | _ => None end
+              | None => None
+              end
        end.
 
 Fixpoint parse_outs (l : list string) : option (list txout) :=
@@ -203,6 +219,164 @@ Definition run_tx (inputs : bool) (a t e mn mx : string) : string :=
   | _, _, _, _, _ => "BADARG"
   end.
 
+(* ------------------------------------------------------------------ *)
+(* tx.match_history: observe -> mutate -> observe on one criteria object and one transaction *)
+Record hstate := {
+  h_outs : list txout; h_ins : list txin;
+  h_ci : criteria; h_cs : criteria;              (* criteria as the library / the grammar read the template steps *)
+  h_li : option criteria; h_ls : option criteria;  (* value returned by the last setter *)
+  h_strict : bool }.                               (* false once a template step is outside the documented grammar *)
+
+Fixpoint upd_nth {A} (k : nat) (f : A -> A) (l : list A) : option (list A) :=
+  match l, k with
+  | [], _ => None
+  | x :: r, O => Some (f x :: r)
+  | x :: r, S k' => match upd_nth k' f r with Some r' => Some (x :: r') | None => None end
+  end.
+
+Definition idx_val (v : string) : option (nat * string) :=
+  match split "." v with
+  | [i; r] => match N_of_dec i with
+              | Some n => if (n <? 100000)%N then Some (N.to_nat n, r) else None
+              | None => None end
+  | _ => None
+  end.
+
+Definition set_c (k : string) (n : N) (c : criteria) : criteria :=
+  if String.eqb k "v" then {| c_template := c_template c; c_exact := Some n; c_min := c_min c; c_max := c_max c |}
+  else if String.eqb k "n" then {| c_template := c_template c; c_exact := c_exact c; c_min := Some n; c_max := c_max c |}
+  else {| c_template := c_template c; c_exact := c_exact c; c_min := c_min c; c_max := Some n |}.
+Definition set_t (t : list mtoken) (c : criteria) : criteria :=
+  {| c_template := Some t; c_exact := c_exact c; c_min := c_min c; c_max := c_max c |}.
+
+Inductive hres := HOk (h : hstate) | HBadArg | HBadTemplate | HErr.
+
+Fixpoint reparse_outs (l : list txout) : option (list txout) :=
+  match l with
+  | [] => Some []
+  | o :: r => match from_bytes (to_bytes (o_script o)), reparse_outs r with
+              | Ok s, Some r' => Some ({| o_value := o_value o; o_script := s |} :: r')
+              | _, _ => None end
+  end.
+Fixpoint reparse_ins (l : list txin) : option (list txin) :=
+  match l with
+  | [] => Some []
+  | i :: r => match from_bytes (to_bytes (i_unlocking i)), reparse_ins r with
+              | Ok s, Some r' => Some ({| i_satoshis := None; i_unlocking := s; i_locking := None |} :: r')
+              | _, _ => None end
+  end.
+
+Definition hstep (inputs : bool) (h : hstate) (st : string) : hres :=
+  let with_ins (f : list txin -> option (list txin)) :=
+    match f (h_ins h) with
+    | Some l => HOk {| h_outs := h_outs h; h_ins := l; h_ci := h_ci h; h_cs := h_cs h; h_li := h_li h; h_ls := h_ls h; h_strict := h_strict h |}
+    | None => HBadArg end in
+  match split "=" st with
+  | [k; v] =>
+      if String.eqb k "v" || String.eqb k "n" || String.eqb k "x" then
+        match N_of_dec v with
+        | Some n => if (n <=? 18446744073709551615)%N then
+                      let ci := set_c k n (h_ci h) in let cs := set_c k n (h_cs h) in
+                      HOk {| h_outs := h_outs h; h_ins := h_ins h; h_ci := ci; h_cs := cs; h_li := Some ci; h_ls := Some cs; h_strict := h_strict h |}
+                    else HBadArg
+        | None => HBadArg end
+      else if String.eqb k "t" then
+        match expand v with
+        | Some bs =>
+            let text := string_of_bytes bs in
+            match template_from_asm text with
+            | Ok ti =>
+                let ci := set_t ti (h_ci h) in
+                match spec_template text with
+                | Some tsp => let cs := set_t tsp (h_cs h) in
+                    HOk {| h_outs := h_outs h; h_ins := h_ins h; h_ci := ci; h_cs := cs; h_li := Some ci; h_ls := Some cs; h_strict := h_strict h |}
+                | None =>
+                    HOk {| h_outs := h_outs h; h_ins := h_ins h; h_ci := ci; h_cs := h_cs h; h_li := Some ci; h_ls := h_ls h; h_strict := false |}
+                end
+            | _ => HBadTemplate end
+        | None => HBadArg end
+      else if String.eqb k "s" then
+        if inputs then
+          match idx_val v with
+          | Some (i, r) => match N_of_dec r with
+                           | Some n => if (n <=? 18446744073709551615)%N then
+                                         with_ins (upd_nth i (fun x => {| i_satoshis := Some n; i_unlocking := i_unlocking x; i_locking := i_locking x |}))
+                                       else HBadArg
+                           | None => HBadArg end
+          | None => HBadArg end
+        else HBadArg
+      else if String.eqb k "l" || String.eqb k "u" then
+        if inputs then
+          match idx_val v with
+          | Some (i, r) => match opt_script r with
+                           | Some (Some sc) =>
+                               if String.eqb k "l"
+                               then with_ins (upd_nth i (fun x => {| i_satoshis := i_satoshis x; i_unlocking := i_unlocking x; i_locking := Some sc |}))
+                               else with_ins (upd_nth i (fun x => {| i_satoshis := i_satoshis x; i_unlocking := sc; i_locking := i_locking x |}))
+                           | _ => HBadArg end
+          | None => HBadArg end
+        else HBadArg
+      else if String.eqb k "w" then
+        if inputs then HBadArg else
+          match idx_val v with
+          | Some (i, r) => match N_of_dec r with
+                           | Some n => if (n <=? 18446744073709551615)%N then
+                                         match upd_nth i (fun o => {| o_value := n; o_script := o_script o |}) (h_outs h) with
+                                         | Some l => HOk {| h_outs := l; h_ins := h_ins h; h_ci := h_ci h; h_cs := h_cs h; h_li := h_li h; h_ls := h_ls h; h_strict := h_strict h |}
+                                         | None => HBadArg end
+                                       else HBadArg
+                           | None => HBadArg end
+          | None => HBadArg end
+      else HBadArg
+  | [k] =>
+      if String.eqb k "r" then
+        match h_li h with
+        | Some ci => HOk {| h_outs := h_outs h; h_ins := h_ins h; h_ci := ci; h_cs := match h_ls h with Some cs => cs | None => h_cs h end;
+                            h_li := h_li h; h_ls := h_ls h; h_strict := h_strict h |}
+        | None => HBadArg end
+      else if String.eqb k "c" || String.eqb k "k" then HOk h
+      else if String.eqb k "b" then
+        match reparse_outs (h_outs h), reparse_ins (h_ins h) with
+        | Some o, Some i => HOk {| h_outs := o; h_ins := i; h_ci := h_ci h; h_cs := h_cs h; h_li := h_li h; h_ls := h_ls h; h_strict := h_strict h |}
+        | _, _ => HErr end
+      else HBadArg
+  | _ => HBadArg
+  end.
+
+Definition show_obs (all : list nat) (first : option nat) : string :=
+  join "," (map (fun k => dec_of_N (N.of_nat k)) all) +++ ":" +++
+  match first with Some k => dec_of_N (N.of_nat k) | None => "-" end.
+Definition obs_impl (inputs : bool) (h : hstate) : string :=
+  if inputs then show_obs (match_inputs is_sig_impl is_pubkey_impl (h_ins h) (h_ci h)) (match_input is_sig_impl is_pubkey_impl (h_ins h) (h_ci h))
+  else show_obs (match_outputs is_sig_impl is_pubkey_impl (h_outs h) (h_ci h)) (match_output is_sig_impl is_pubkey_impl (h_outs h) (h_ci h)).
+(* the expected observation depends on the current field values only *)
+Definition obs_spec (inputs : bool) (h : hstate) : string :=
+  if h_strict h then
+    if inputs then show_obs (indices_from (spec_in_selected (h_cs h)) 0 (h_ins h)) (first_from (spec_in_selected (h_cs h)) 0 (h_ins h))
+    else show_obs (indices_from (spec_out_selected (h_cs h)) 0 (h_outs h)) (first_from (spec_out_selected (h_cs h)) 0 (h_outs h))
+  else "*".
+
+Fixpoint hrun (inputs : bool) (h : hstate) (steps : list string) (acc_i acc_s : list string) : string :=
+  match steps with
+  | [] => out3 ("OK:" +++ join ";" (rev acc_i)) ("OK:" +++ join ";" (rev acc_s)) "-"
+  | st :: r =>
+      match hstep inputs h st with
+      | HOk h' => hrun inputs h' r (obs_impl inputs h' :: acc_i) (obs_spec inputs h' :: acc_s)
+      | HBadArg => "BADARG"
+      | HBadTemplate => out3 "OK:badtemplate" "OK:badtemplate" "-"
+      | HErr => out3 "ERR" "ERR" "-"
+      end
+  end.
+
+Definition run_history (kind items steps : string) : string :=
+  let c0 := {| c_template := None; c_exact := None; c_min := None; c_max := None |} in
+  let start (inputs : bool) (o : list txout) (i : list txin) :=
+    let h := {| h_outs := o; h_ins := i; h_ci := c0; h_cs := c0; h_li := None; h_ls := None; h_strict := true |} in
+    hrun inputs h (match steps with EmptyString => [] | _ => split "/" steps end) [obs_impl inputs h] [obs_spec inputs h] in
+  if String.eqb kind "o" then match parse_outs (Exec_C19.items items) with Some o => start false o [] | None => "BADARG" end
+  else if String.eqb kind "i" then match parse_ins (Exec_C19.items items) with Some i => start true [] i | None => "BADARG" end
+  else "BADARG".
+
 Definition text_arg (a : string) : option string :=
   match expand a with Some bs => Some (string_of_bytes bs) | None => None end.
 
@@ -212,6 +386,7 @@ Definition run (op : string) (args : list string) : string :=
   | "script.match", [a; b] =>
       match expand a, text_arg b with Some bs, Some t => run_match bs t | _, _ => "BADARG" end
   | "template.self_match", [a] => match expand a with Some bs => run_self bs | None => "BADARG" end
+  | "tx.match_history", [k; a; st] => run_history k a st
   | "tx.match_outputs", [a; t; e; mn; mx] => run_tx false a t e mn mx
   | "tx.match_inputs", [a; t; e; mn; mx] => run_tx true a t e mn mx
   | _, _ => "BADOP"
